@@ -106,9 +106,18 @@ NewC(e, pre, post) ==
   IN IF e.out # "ok" THEN None ELSE
      Cl("C13.new_kind", TRUE, w.k = e.a.cls)
   \o Cl("C13.new_text", TRUE, TextIs(w, base, pre))
-  \o Cl("C13.new_sty", S # << >> \/ fromReg,
+  \o Cl("C13.new_gains", S # << >> \/ fromReg,
         /\ Len(w.s) = Len(exp)
-        /\ \A k \in DOMAIN exp : EquivIds(Tids(w.s[k]), Tids(exp[k]) \o S))
+        /\ \A k \in DOMAIN exp : BagPlus(Tids(exp[k]), S, Tids(w.s[k])))
+  \o Cl("C13.new_keeps_order", fromReg,
+        /\ Len(w.s) = Len(exp)
+        /\ \A k \in DOMAIN exp : EquivIds(SelectSeq(Tids(w.s[k]), LAMBDA t : t \notin Range(S)),
+                                          SelectSeq(Tids(exp[k]), LAMBDA t : t \notin Range(S))))
+  \o Cl("C13.new_top_display", S # << >> /\ exp # << >> /\ AllSingleIds(S),
+        (S # << >> /\ AllSingleIds(S) /\ Len(w.s) = Len(exp)) =>
+          \A k \in DOMAIN exp :
+            ((\A j \in 2..k : \A x \in Range(Insts(exp[j])) : x \in Range(Insts(exp[j-1]))) /\ AllSingle(w.s[k]))
+              => \A g \in TouchedBy(S) : Display(w.s[k])[g] = DisplayIds(S)[g])
 
 CopyC(e, pre, post) ==
   LET v == pre[e.r] w == post[e.res[1]] IN
